@@ -46,7 +46,7 @@ def small_case(rng, p_fail):
 
 
 def stage_ticks(report, tier, rng, dist):
-    n_cases = 3 if tier == 'quick' else 40
+    n_cases = 3 if tier == 'quick' else 24
     terms, kept = [], []
     for ci in range(n_cases):
         case = small_case(rng, 0.25)
@@ -56,7 +56,7 @@ def stage_ticks(report, tier, rng, dist):
         total = ticker.n
         points = [(k1, None) for k1 in range(total)]
         dbl = [(k1, k2) for k1 in range(total) for k2 in range(0, 10)]
-        points += rng.sample(dbl, min(len(dbl), 25 if tier == 'quick' else 150))
+        points += rng.sample(dbl, min(len(dbl), 25 if tier == 'quick' else 100))
         for k1, k2 in points:
             obs, oracle, ticker, script = I.run_interrupt(case, k1, k2)
             dist['tick_runs'] += 1
